@@ -627,7 +627,7 @@ def _random_history(rng, shape, length):
             op = [verb, tgt, src, rel, a.tphrase]
         x = rng.random()
         if x < 0.04:
-            op[3] = rng.choice(['R9', 0, 'r1'])
+            op[3] = rng.choice(['R9', 0, 'R11'])
         elif x < 0.08:
             op[4] = rng.choice([p for p in phrases + ['zz'] if p != op[4]] or ['zz'])
         elif x < 0.10:
